@@ -42,12 +42,12 @@ CHECKS = {
    note="trusted: TLC, harness/core + interadp decoding; other-BitXHub traffic only as unavailable destination / rejected source; unordered (batch) destinations excluded from the order clause",
    technique="TLA+ protocol machine + TLC exhaustive MC; TLC trace validation of the real executor"),
  "C03": dict(engine="Interchain", design_ref="DESIGN.md §3.5, §5 C03",
-   text="Same traces: every IBTP carries the abstract proof class (hash matches / mismatches / absent) and origin; an accepted IBTP whose proof does not verify violates C03_Gate; a failed one must leave no state delta beyond nonce and fee (sibling-node diff); direct invocations of HandleIBTPData and of the transaction-manager entry points by external accounts must not change counters, records or delivery metadata (counters / status comparison after every block).",
-   note="trusted: TLC, harness; only the built-in accept-all rule and hash-level proof classes are driven: rule engines returning plain false, rule changes and validator-signature thresholds of other BitXHubs are NOT covered yet",
+   text="Interchain.tla decides every proof itself (ProofOK): an IBTP is proven by the hub its category points at; on this hub the proof bytes must hash to the committed value and satisfy the rule bound to the appchain (observed: the stored rule whose status is available; RuleOK for the accept-all rule and for the real simplified-Fabric rule over logged artifact labels: index, chaincode, call, signature validity, endorser vs registered trust root); on another BitXHub more than (n-1)/3 DISTINCT REGISTERED validators must have signed this very ibtp and status (MsOK over logged signer labels). The harness builds real secp256k1 multi-signature proofs and real endorsed Fabric artifacts; an accepted IBTP whose proof the specification rejects violates C03_Gate / C03_MultiSign; a failed one must leave no state delta beyond nonce and fee (sibling-node diff); direct invocations of HandleIBTPData and of the transaction-manager entry points by external accounts must not change counters, records or delivery metadata. InterchainXMC.tla model-checks the machine between two hubs with the threshold restated in rational arithmetic (3*signers > n-1).",
+   note="trusted: TLC, harness labelling of proofs (who signed what); WASM rules not deployed; a replaced trust root / validator set never verifies in this code base (approved UpdateAppchain stores base64 text, fail-closed), so only the reject side of replaced sets is exercised",
    technique="TLA+ protocol machine gating clause; TLC trace validation of the real executor"),
  "C04": dict(engine="Interchain", design_ref="DESIGN.md §3.5, §5 C04",
    text="The status machine (NextStatus) is part of Interchain.tla; TLC checks C04_Step and C04_FinalStable as action properties over all bounded sequences incl. receipts in the expiry block and after final states. On real traces every accepted receipt must be a legal transition (C04_Step) and the status query of every id ever submitted must equal the machine's status after every block (C04_QueryAgrees), with timed scenarios placing each receipt type before, at and after H+T.",
-   note="trusted: TLC, harness; inter-BitXHub notices not driven",
+   note="trusted: TLC, harness; inter-BitXHub requests, receipts and begin-failure / rollback notices are driven (xhub scenarios); the status carried by a notice to the source hub is not covered by any proof in this code base (observation in DESIGN.md 11.2)",
    technique="TLA+ action properties checked by TLC; TLC trace validation of the real executor"),
  "C05": dict(engine="Interchain", design_ref="DESIGN.md §3.5, §5 C05",
    text="Groups are part of the protocol machine; TLC checks C05_SuccessOnlyIfAll, C05_NeverSuccessAfterFailure, C05_AllChildrenFail on all bounded sequences of a two-child group. On real traces the stored group record (global state and every child's status) must equal the machine after every block (C05_GroupState), and when a group expires the block's timeout metadata must list every child under the source chain and every already succeeded child under its destination chain (C05_NotifyInSameBlock).",
@@ -55,11 +55,11 @@ CHECKS = {
    technique="TLA+ invariants checked by TLC; TLC trace validation of the real executor"),
  "C06": dict(engine="Interchain", design_ref="DESIGN.md §3.5, §5 C06",
    text="Expiry is the EndBlock step of the machine; TLC checks C06_FiresAt / C06_NoLateBegin (a BEGIN transaction is rolled back exactly in block H+T) over all bounded sequences. On real traces, after every block, exactly the transactions that expire in this block must be BEGIN_ROLLBACK and be listed once under their source chain in the block's timeout metadata, nothing else may be listed (C06_OnlyExpired), receipts accepted up to and including H+T prevent it, T=0 and huge T never expire; the same for groups (C06_GroupFiresAt); restarts are placed between H and H+T.",
-   note="trusted: TLC, harness",
+   note="trusted: TLC, harness; one known finding: requests to an unordered destination register no timeout by design",
    technique="TLA+ action properties checked by TLC; TLC trace validation of the real executor"),
  "C16": dict(engine="Interchain", design_ref="DESIGN.md §3.5/3.6, §5 C16",
    text="Gating half of C16: services and appchains are frozen / activated / logged out through real proposals and votes between IBTP traffic and restarts; an accepted request whose source service is not available violates C16_SourceAvailable, and the begin-failure decision must equal the destination gate (exists and available) (C16_DestGate). The lifecycle half (status machines of appchains, services, rules, roles, nodes) is checked in the Governance family.",
-   note="trusted: TLC, harness; blacklist permission not driven yet",
+   note="trusted: TLC, harness; blacklist permission not driven yet; relay-chain availability gates requests from / to another BitXHub (xhub scenarios)",
    technique="TLA+ protocol machine gating clauses; TLC trace validation of the real executor"),
  "C01": dict(engine="Replicas", design_ref="DESIGN.md §3.8, §5 C01",
    text="Replicas.tla states agreement; ReplicasMC enumerates all placements of stop / start / view steps of 3 replicas over a chain. Every interchain scenario (random, group-heavy, timed; IBTP one-to-one and grouped, governance, transfers, failing transactions) is executed on a reference node and three perturbed real replicas (restart before every block + parallel proof goroutines; serial + view execution before every block; reopen right after genesis + random restarts), all fed byte-identical blocks; TLC compares block hash, parent, state / tx / receipt / timeout roots, every receipt and the ordered delivery / timeout / multi-tx metadata of every height.",
